@@ -406,14 +406,23 @@ def c01(rep, tier):
     # WHILE
     dw = m.fn('dispatchWhile')
     rep.analysed(dw)
-    g = m.cfg(dw)
-    jc, jm = find_factory_ev(m, g, 'JmpC'), find_factory_ev(m, g, 'Jmp')
-    dv, body = g.calls_to('dispatchValue'), g.calls_to('dispatchVoid')
-    sl = g.calls_to('GenState::setLabel')
+
+    def wshape(fx):
+        g_ = m.cfg(fx)
+        return (g_, find_factory_ev(m, g_, 'JmpC'), find_factory_ev(m, g_, 'Jmp'), g_.calls_to('dispatchValue'), g_.calls_to('dispatchVoid'), g_.calls_to('GenState::setLabel'))
+    g, jc, jm, dv, body, sl = wshape(dw)
+    if not (len(jc) == 1 and len(jm) == 1 and len(dv) == 1 and len(body) == 1 and len(sl) == 2):
+        from .inline import inlined
+        dw2, names_ = inlined(m.facts, dw, rounds=2, single_use=False, want=lambda h, call: not h['q'].startswith(('dispatch', 'gen_ast')))
+        if names_:
+            sh2 = wshape(dw2)
+            if len(sh2[1]) == 1 and len(sh2[2]) == 1 and len(sh2[3]) == 1 and len(sh2[4]) == 1 and len(sh2[5]) == 2:
+                dw = dw2
+                g, jc, jm, dv, body, sl = sh2
     if len(jc) == 1 and len(jm) == 1 and len(dv) == 1 and len(body) == 1 and len(sl) == 2:
         start_l, end_l = strip_casts(jm[0].e['args'][0]), strip_casts(jc[0].e['args'][0])
-        s_start = [x for x in sl if m.same_var(x.e['args'][0], start_l)]
-        s_end = [x for x in sl if m.same_var(x.e['args'][0], end_l)]
+        s_start = [x for x in sl if m.same_var(x.e['args'][0], start_l, dw)]
+        s_end = [x for x in sl if m.same_var(x.e['args'][0], end_l, dw)]
         if len(s_start) == 1 and len(s_end) == 1:
             chain_check(E, m, dw, g, [('head label', s_start[0]), ('condition -> r', dv[0]), ('JmpC(end, r)', enclosing_emit(m, g, jc[0])), ('body', body[0]),
                                       ('Jmp(head)', enclosing_emit(m, g, jm[0])), ('end label', s_end[0])], 'dispatchWhile')
@@ -634,6 +643,24 @@ def c01(rep, tier):
                     F.unknown(inst, 'origin of the released register not resolved: %s' % (unk[:1] or 'none'), W(m, f, e))
                 else:
                     F.ok(inst, 'releases a register obtained from fetchTemporary', W(m, f, e))
+    # registers are found by name: a temporary's name must be one no user variable can have (like the LOOP counter's), otherwise the
+    # lookup of a user variable with that name returns the temporary
+    import re as _re
+    ft = m.fn('FunctionGenState::fetchTemporary')
+    names = []
+    for e in walk_all_exprs(ft['body']):
+        if is_call(e, '::push_back') or is_call(e, '::emplace_back'):
+            for x in walk_expr(e):
+                if x.get('k') == 'str':
+                    names.append(x['v'])
+                elif x.get('k') == 'ref' and x.get('from_global') and isinstance(x.get('v'), str):
+                    names.append(x['v'])
+    if not names:
+        F.unknown('fetchTemporary: name of a temporary', 'the name given to a new temporary register was not found')
+    for nm_ in names:
+        F.check(bool(_re.search(r'[^A-Za-z0-9_]', nm_)) or nm_ == '' or nm_[0].isdigit(), 'fetchTemporary: name "%s"' % nm_, 'contains a character no identifier can contain',
+                'temporaries are registered under the name "%s", which a user variable can have: fetchVariableRegister("%s") then returns a temporary - the variable shares a register with '
+                'intermediate results and disappears from the variable view' % (nm_, nm_), W(m, ft), witness={'input': '%s := 5; x1 := %s + 1' % (nm_, nm_)})
     # vector of temporaries in the call sequence
     g = m.cfg(dvf)
     rels = [ev for ev in g.calls_to('FunctionGenState::releaseTemporary') if is_call(strip_casts(ev.e['args'][0]), '::operator[]')]
